@@ -7,6 +7,9 @@ import PyGqlModel.Lemmas.LexChars
 import PyGqlModel.Lemmas.LexBlockEscape
 import PyGqlModel.Spec.BlockStringSpec
 import PyGqlModel.Lemmas.LexBlockLayout
+import PyGqlModel.Lemmas.LexBlockRoundtrip
+import PyGqlModel.Lemmas.LexCompleteNum
+import PyGqlModel.Props.C02_decode
 
 namespace PyGql.Props.C03
 open PyGql.Lex PyGql.PrintString
@@ -86,7 +89,7 @@ theorem quoted_roundtrip (v : Text) :
 /-- non-vacuity: `a"😀\` + U+0001 + lone surrogate U+D800 -/
 example : jsonDumps [97, 34, 0x1F600, 92, 1, 0xD800] = [34, 97, 92, 34, 0x1F600, 92, 92, 92, 117, 48, 48, 48, 49, 0xD800, 34] := by decide
 
-/-- THE FULL STATEMENT `block_roundtrip`: for every value in the range of `BlockStringValue` (made of block-string
+/-- THE FULL STATEMENT `block_roundtrip` in the whole-text form (proved: `block_roundtrip_statement`): for every value in the range of `BlockStringValue` (made of block-string
     characters), every indent string over {space, tab}, every enclosing depth `k` and both paths (value / description),
     the printed block string lexes to exactly one BlockString token whose value is the original. -/
 def BlockRoundtripStatement : Prop :=
@@ -96,24 +99,98 @@ def BlockRoundtripStatement : Prop :=
     ∃ a b, lexAll (indentN ind k (blockString v ind isDesc)) =
       .ok [sofTok, ⟨.blockString, a, b, v⟩, eofTok (indentN ind k (blockString v ind isDesc)).length]
 
-/-- `block_roundtrip_partial` — the ESCAPING half of `block_roundtrip`, for ALL values (not only canonical ones):
-    the lexer's block-string scanner inverts the printer's `value.replace('"""', '\\"""')`. Whatever layout `w` the
-    printer puts on the following line (indentation + closing quotes), scanning `escaped(v) LF w` returns `v` followed by
-    what scanning `LF w` returns; in particular no `"`/`\` at the end of `v` can fuse with the closing quotes
-    (defect R3 for the one-line form is this statement with the appended LF).
-    MISSING for the full statement: the COMPOSITION of the layout half — `BlockStringValue (LF (P·l₁) LF … LF (P·lₙ) LF Q) = v`
-    for canonical `v` with lines `lᵢ` and blank prefixes `P`, `Q`. Its three ingredients are proved below
-    (`layout_splitLines_joinLF`, `layout_commonIndent_shift`, `layout_stripBlank`); what is open is the characterisation of
-    the range of `BlockStringValue` that makes the shifted minimum equal to `|P|`.
-    That half is covered by the correspondence + direct oracle (depth 0–3, 7 indents, both paths) and the instances below. -/
-theorem block_roundtrip_partial (n : Nat) (v w : Text) (hv : ∀ c ∈ v, blockChar c = true) :
+/-- the escaping half as a reusable lemma (was `block_roundtrip_partial`): the lexer's block-string scanner inverts the
+    printer's `value.replace('"""', '\\"""')`, for ALL values and whatever layout follows on the next line -/
+theorem block_escape_scan (n : Nat) (v w : Text) (hv : ∀ c ∈ v, blockChar c = true) :
     readBlockBody n 0 (escapeTripleQuotes v ++ 10 :: w) =
       (readBlockBody n 0 (10 :: w)).map (fun p => (v ++ p.1, p.2)) :=
   readBlockBody_escape n w v 0 (Nat.zero_le _) hv
 
-/-! ### the LAYOUT half of `block_roundtrip`: the three lemmas of DESIGN §5 C03 (all proved); what is still missing
-    is only their composition with the characterisation of the range of `BlockStringValue` (first / last line non-blank,
-    some non-blank tail line with indentation 0), i.e. `parseBlockString (LF (P·l₁) LF … (P·lₙ) LF Q) = joinLF [l₁ … lₙ]`. -/
+/-- `block_roundtrip` (FULL): for EVERY value `v` in the range of `BlockStringValue` (made of block-string characters),
+    every indent string `ind` over {space, tab}, both paths (`is_description` off / on) and EVERY enclosing indentation
+    prefix `P` over {space, tab} (what any number of enclosing `_indent` calls put after each line feed), the printed
+    block string — empty, one-line (`"""␠v"""`, with the line feed appended after a trailing `"` or `\`) or multi-line
+    form — followed by ANY text `r` is read by one `__next__` as exactly one BlockString token spanning the printed text,
+    whose value is `v`. (Defects R1 and R3 fixed; B1/B2 make the range what the specification says.) -/
+theorem block_roundtrip (n : Nat) (raw ind P r : Text) (isDesc : Bool)
+    (hind : ∀ c ∈ ind, c = 32 ∨ c = 9) (hP : ∀ c ∈ P, c = 32 ∨ c = 9)
+    (hchars : ∀ c ∈ Spec.BlockStringValue raw, blockChar c = true) :
+    next n (replaceLF P (blockString (Spec.BlockStringValue raw) ind isDesc) ++ r) =
+      .ok (⟨.blockString, n - (replaceLF P (blockString (Spec.BlockStringValue raw) ind isDesc) ++ r).length,
+            n - r.length, Spec.BlockStringValue raw⟩, some r) := by
+  rw [← PyGql.Props.C02.block_string_spec] at hchars ⊢
+  exact BlockRT.block_next n raw ind P r isDesc hind hP hchars
+
+private theorem indentN_eq (ind : Text) (hind : ∀ c ∈ ind, c = 32 ∨ c = 9) (s : Text) (hs : s ≠ []) (k : Nat) :
+    ∃ Pk : Text, (∀ c ∈ Pk, c = 32 ∨ c = 9) ∧ indentN ind k s = Pk ++ replaceLF Pk s := by
+  induction k with
+  | zero => exact ⟨[], by simp, by simp [indentN, BlockRT.replaceLF_nil]⟩
+  | succ k ih =>
+    obtain ⟨Pk, hPk, hk⟩ := ih
+    refine ⟨ind ++ Pk, PrintLex.blank_append hind hPk, ?_⟩
+    have hne : indentN ind k s ≠ [] := by
+      rw [hk]; cases s with
+      | nil => exact absurd rfl hs
+      | cons c t => cases Pk <;> simp [replaceLF] <;> split <;> simp
+    have hemp : (indentN ind k s).isEmpty = false := by
+      cases h : indentN ind k s with
+      | nil => exact absurd h hne
+      | cons a b => rfl
+    simp only [indentN, indentText, hemp, Bool.false_eq_true, ↓reduceIte]
+    rw [hk, PrintLex.replaceLF_append, PrintLex.replaceLF_noLF ind Pk (PrintLex.blank_noLF hPk),
+      PrintLex.replaceLF_replaceLF ind Pk s hPk]
+    simp [List.append_assoc]
+
+private theorem ignRun_blank (X P : Text) (hP : ∀ c ∈ P, c = 32 ∨ c = 9) : Spec.Lexical.IgnRun X P := by
+  induction P with
+  | nil => exact .nil
+  | cons c t ih =>
+    refine .char c t ?_ (ih (fun x hx => hP x (by simp [hx])))
+    rcases hP c (by simp) with rfl | rfl <;> decide
+
+private theorem blockString_head (v ind : Text) (d : Bool) : ∃ u, blockString v ind d = 34 :: u := by
+  have h : (blockString v ind d).head? = some 34 := by
+    unfold blockString
+    simp only
+    repeat' split
+    all_goals simp
+  cases hb : blockString v ind d with
+  | nil => rw [hb] at h; simp at h
+  | cons a u => rw [hb] at h; simp at h; exact ⟨u, by rw [h]⟩
+
+/-- the statement in the form announced in round 1 (`BlockRoundtripStatement`): the whole text made of the printed block
+    string under `k` enclosing `_indent`s lexes to exactly `[SOF, BlockString v, EOF]` -/
+theorem block_roundtrip_statement : BlockRoundtripStatement := by
+  intro raw ind k isDesc
+  dsimp only
+  intro hchars hind
+  generalize hv : Spec.BlockStringValue raw = v at hchars
+  obtain ⟨u, hu⟩ := blockString_head v ind isDesc
+  have hne : blockString v ind isDesc ≠ [] := by rw [hu]; simp
+  obtain ⟨Pk, hPk, hk⟩ := indentN_eq ind hind _ hne k
+  have hhead : ∃ u', replaceLF Pk (blockString v ind isDesc) = 34 :: u' := by
+    rw [hu]; exact ⟨replaceLF Pk u, by simp [replaceLF]⟩
+  obtain ⟨u', hu'⟩ := hhead
+  have hX : tokenStart (replaceLF Pk (blockString v ind isDesc) ++ []) := by
+    rw [hu']; simp only [tokenStart, List.cons_append, Spec.Lexical.startsWith]; decide
+  have hnext := block_roundtrip (Pk ++ replaceLF Pk (blockString v ind isDesc)).length raw ind Pk [] isDesc hind hPk (by rw [hv]; exact hchars)
+  rw [hv] at hnext
+  have hskip := next_skip (Pk ++ replaceLF Pk (blockString v ind isDesc)).length Pk _ (ignRun_blank _ Pk hPk) hX
+  rw [List.append_nil] at hskip hnext
+  refine ⟨(Pk ++ replaceLF Pk (blockString v ind isDesc)).length - (replaceLF Pk (blockString v ind isDesc)).length,
+    (Pk ++ replaceLF Pk (blockString v ind isDesc)).length - ([] : Text).length, ?_⟩
+  rw [hk]
+  unfold lexAll
+  have hpos : 1 ≤ (Pk ++ replaceLF Pk (blockString v ind isDesc)).length := by
+    rw [hu', List.length_append, List.length_cons]; omega
+  obtain ⟨f, hf⟩ : ∃ f, (Pk ++ replaceLF Pk (blockString v ind isDesc)).length + 1 = f + 1 + 1 :=
+    ⟨(Pk ++ replaceLF Pk (blockString v ind isDesc)).length - 1, by omega⟩
+  rw [hf]
+  have heof : ∀ n, next n [] = .ok (eofTok n, none) := by intro n; simp [next, readOverWhitespace]
+  simp only [lexLoop, hskip, hnext, heof]
+
+/-! ### the LAYOUT half of `block_roundtrip`: the three lemmas of DESIGN §5 C03, composed by lang3's
+    `parseBlockString_layout`; the range of `BlockStringValue` is characterised in `Lemmas/LexBlockRange.lean`. -/
 
 /-- `splitLines (joinLF ls) = ls`: the printer's LF-joined lines are exactly what the parser splits -/
 theorem layout_splitLines_joinLF (l : Text) (ls : List Text) (h : ∀ x ∈ l :: ls, BlockString.IsLine x) :
